@@ -836,6 +836,8 @@ int driver_main(int argc, char **argv, Engine &e) {
            ag.digests_nontrivial.size(), ag.sim_ns * 1e-9, wall, exit_code);
     for (auto &p : e.probes)
         if (!ag.counters.count(p) || !ag.counters[p]) printf("warning: probe %s stayed at zero\n", p.c_str());
+    for (auto &p : e.expect_zero)
+        if (ag.counters.count(p) && ag.counters[p]) printf("warning: counter %s = %llu (it is zero on the pinned tree; see DESIGN.md)\n", p.c_str(), (unsigned long long)ag.counters[p]);
     return exit_code;
 }
 
